@@ -2,7 +2,10 @@ module amc
 
 go 1.25.0
 
-require github.com/pancsta/asyncmachine-go v0.0.0
+require (
+	github.com/pancsta/asyncmachine-go v0.0.0
+	github.com/patrickmn/go-cache v2.1.0+incompatible
+)
 
 require (
 	filippo.io/edwards25519 v1.1.0 // indirect
@@ -96,3 +99,5 @@ require (
 replace github.com/pancsta/asyncmachine-go => /repo
 
 replace github.com/cenkalti/rpc2 => /verif/third_party/rpc2
+
+replace github.com/patrickmn/go-cache => /verif/third_party/go-cache
